@@ -64,7 +64,7 @@ def value_pool(rng, flag):
     if flag == "-ms":
         return rng.choice(["3,11", "5", "2,4,6"])
     if flag == "-gc":
-        return rng.choice(["r", "b", "k", "0.3"])
+        return rng.choice(["r", "b", "k", "0.3", "[0.3,0,0]", "[0,0.5,1]"])      # the help text's own examples: red,[0.3,0,0],0.3
     if flag == "-gs":
         return rng.choice(["--", ":", "-."])
     if flag == "-gw":
@@ -76,9 +76,9 @@ def value_pool(rng, flag):
     if flag == "-dpi":
         return rng.choice(["50", "72", "120", "200"])
     if flag in ("-left", "-bottom"):
-        return rng.choice(["0.15", "0.2", "0.3"])
+        return rng.choice(["0.15", "0.2", "0.3", "0", "0"])          # 0 is a legal margin
     if flag in ("-right", "-top"):
-        return rng.choice(["0.75", "0.8", "0.95"])
+        return rng.choice(["0.75", "0.8", "0.95", "1"])
     if flag == "-af":
         return rng.choice(["score", "key", "score,key"])
     raise KeyError(flag)
@@ -207,7 +207,7 @@ def check_case(runner, argv, expected, kind, nfiles):
                 each(lambda ax: not any(x.get_visible() for x in g(ax)) or "grid lines are visible", flag, "-nogrid")
             elif expected.get("-nogrid") is None:
                 if flag == "-gc":
-                    each(lambda ax: all(mc.to_rgba(x.get_color()) == mc.to_rgba(val) for x in g(ax)) or "grid colours are %r" % sorted({mc.to_hex(x.get_color()) for x in g(ax)}), flag, "-gc %s" % val)
+                    each(lambda ax: all(mc.to_rgba(x.get_color()) == mc.to_rgba(tuple(float(q_) for q_ in val.strip("[]").split(",")) if val.startswith("[") else val) for x in g(ax)) or "grid colours are %r" % sorted({mc.to_hex(x.get_color()) for x in g(ax)}), flag, "-gc %s" % val)
                 elif flag == "-gs":
                     each(lambda ax: all(x.get_linestyle() == val for x in g(ax)) or "grid styles are %r" % sorted({x.get_linestyle() for x in g(ax)}), flag, "-gs %s" % val)
                 else:
@@ -242,6 +242,13 @@ def check_case(runner, argv, expected, kind, nfiles):
                 cb = axes[-1]
                 if flag == "-clabel" and cb.get_ylabel() != val and cb.get_xlabel() != val:
                     bad.append((flag, "-clabel %r: colour bar label is %r" % (val, cb.get_ylabel() or cb.get_xlabel())))
+            if flag == "-labfs" and kind == "map" and len(axes) > 1:
+                # the colour bar label is a label: -labfs sets its size (with or without -clabel, whatever -legfs says)
+                for cb in axes[1:]:
+                    lab_ = cb.yaxis.label if cb.get_ylabel() else cb.xaxis.label
+                    if lab_.get_text() and not feq(lab_.get_fontsize(), float(val)):
+                        bad.append((flag, "-labfs %s: the colour bar label %r has size %r" % (val, lab_.get_text(), lab_.get_fontsize())))
+                        break
                 if flag == "-clim":
                     lim = parse_numbers(val)
                     cols = [c for c in axes[0].collections if hasattr(c, "get_clim") and c.get_array() is not None]
@@ -320,7 +327,7 @@ def gen_case(rng, tmp, ci):
                 "-gc", "-gs", "-gw", "-nogrid", "-fs", "-dpi", "-left", "-right", "-top", "-bottom", "-nomargin", "-aspect"]
     else:
         base = ["-m", "mae", "-type", "map"]
-        pool = ["-clabel", "-clim", "-title", "-fs", "-dpi", "-labfs", "-titlefs"]
+        pool = ["-clabel", "-clim", "-title", "-fs", "-dpi", "-labfs", "-titlefs", "-legfs"]
     k = rng.randint(1, min(8, len(pool)))
     chosen = rng.sample(pool, k)
     # combinations the documentation does not define are not generated
@@ -376,6 +383,21 @@ def _explore(out, tier, seed, facts, replay, tmp):
     samples = []
     agree = 0
     try:
+        # -a -af <fields>: every annotation shows the requested fields of ITS location, in the order given
+        for fields_ in (["lon"], ["lat", "lon"], ["lon", "lat", "elev"], ["location", "elev"]):
+            argv_a = ["verif", os.path.join(tmp, "full_a.txt"), os.path.join(tmp, "full_b.txt"), "-m", "mae", "-x", "location", "-a", "-af", ",".join(fields_),
+                      "-f", os.path.join(tmp, "annot.png")]
+            st, info = runner.run(argv_a)
+            short_a = " ".join(os.path.basename(t) if os.sep in t else t for t in argv_a[1:])
+            if st != "ok":
+                out.violation("annotation:%s" % st, "verif %s ends with %s %s" % (short_a, st, info), {"argv": argv_a})
+                continue
+            fig_a = runner.cap.get("fig")
+            texts_a = sorted({t_.get_text().strip() for t_ in fig_a.axes[0].texts}) if fig_a is not None and fig_a.axes else []
+            meta_a = {"location": lambda s_: 10 + s_, "lat": lambda s_: 60 + s_, "lon": lambda s_: 10 + s_, "elev": lambda s_: 100 * s_}
+            want_a = sorted({" ".join("%g" % meta_a[k_](s_) for k_ in fields_) for s_ in range(3)})
+            if texts_a != want_a:
+                out.violation("annotation-fields", "verif %s annotates the points with %r; the fields %r of the three locations are %r" % (short_a, texts_a, fields_, want_a), {"argv": argv_a})
         for b0 in range(0, n, 120):
             cases, exprs = [], []
             for ci in range(b0, min(n, b0 + 120)):
